@@ -888,6 +888,8 @@ func init() {
 				POn     *bool
 				Zero    int
 				Nothing *int
+				NegZero float64
+				Half    float32
 			}
 			useTemplates := []string{
 				"@if(T)y@else n@end|@if(F)y@else n@end", "@if(F)a@elseif(T)b@else c@end|@if(F)a@elseif(F)b@else c@end", "{{ T ? 1 : 2 }}|{{ F ? 1 : 2 }}",
@@ -898,23 +900,31 @@ func init() {
 				"{{ x = T }}{{ x }}|{{ x ? 'y' : 'n' }}|@if(x)y@end", "@each(v in [T, F, T])@continueIf(v)[{{ loop.index }}]@end", "@each(v in [F, F, T, F])@breakIf(v)[{{ loop.index }}]@end",
 				"@if(N)y@else n@end|{{ N ? 1 : 2 }}|{{ !N }}|@each(v in [1, 2])x@breakIf(N)@end|@each(v in [1, 2])x@continueIf(N)y@end", "{{ N }}|{{ [N, 1] }}|{{ x = N }}{{ x }}",
 				"@if(Z)y@else n@end|{{ Z ? 1 : 2 }}|@each(v in [1, 2])x@breakIf(Z)@end|@each(v in [1, 2])x@continueIf(Z)y@end|{{ -Z }}|{{ Z + 1 }}",
+				// round 17: floats whose sign or fraction a conversion may lose - negative zero and a negative half - printed, joined,
+				// divided by, converted to text; the equal literal is the prefix minus applied to the literal of the magnitude
+				"{{ M }}|{{ [M].join('|') }}|{{ 1.0 / M < 0.0 }}|{{ M.str() }}|{{ [M, 1.5] }}|{{ {k: M}.k }}|{{ x = M }}{{ x }}|{{ M + 0.0 }}|{{ M * 1.0 }}",
+				"{{ H }}|{{ [H].join('|') }}|{{ H.round() }}|{{ H.str() }}|{{ H.abs() }}|{{ H * 2.0 }}|{{ H.ceil() }}|{{ H.floor() }}|{{ x = H }}{{ x.round() }}",
 			}
+			negZero, half32 := math.Copysign(0, -1), float32(-0.5)
 			yes := true
-			useData := map[string]any{"t": true, "f": false, "o": map[string]any{"t": true, "f": false, "n": nil, "z": 0}, "bs": []bool{true, false}, "pt": &yes, "st": c12Flags{On: true, POn: &yes},
+			useData := map[string]any{"t": true, "f": false, "o": map[string]any{"t": true, "f": false, "n": nil, "z": 0, "nz": negZero, "h": -0.5}, "bs": []bool{true, false}, "pt": &yes, "st": c12Flags{On: true, POn: &yes, NegZero: negZero, Half: half32},
+				"nz": negZero, "fs": []float64{negZero, -0.5}, "pnz": &negZero, "h": -0.5, "h32": half32,
 				"n": nil, "z": 0, "z8": int8(0), "uz": uint(0), "any": []any{true, false, nil, 0}}
 			spell := map[string][]string{
 				"T": {"t", "o.t", "bs[0]", "pt", "st.On", "st.on", "st.pOn", "any[0]", "o['t']"},
 				"F": {"f", "o.f", "bs[1]", "st.Off", "st.off", "any[1]"},
 				"N": {"n", "o.n", "st.Nothing", "any[2]"},
 				"Z": {"z", "o.z", "z8", "uz", "st.Zero", "any[3]"},
+				"M": {"nz", "o.nz", "fs[0]", "pnz", "st.NegZero", "st.negZero"},
+				"H": {"h", "o.h", "fs[1]", "h32", "st.Half", "st.half"},
 			}
-			literal := map[string]string{"T": "true", "F": "false", "N": "nil", "Z": "0"}
+			literal := map[string]string{"T": "true", "F": "false", "N": "nil", "Z": "0", "M": "(-0.0)", "H": "(-0.5)"}
 			inUse := core.Section{Name: "scalars-of-the-data-in-every-position-of-use", Exhaustive: true, N: len(useTemplates) * 9,
 				Run: func(c *core.Ctx, i int) {
 					tmpl, k := useTemplates[i/9], i%9
 					sub := func(form func(ph string) string) string {
 						out := tmpl
-						for _, ph := range []string{"T", "F", "N", "Z"} {
+						for _, ph := range []string{"T", "F", "N", "Z", "M", "H"} {
 							out = strings.ReplaceAll(out, "("+ph+")", "("+form(ph)+")")
 							out = strings.ReplaceAll(out, " "+ph+" ", " "+form(ph)+" ")
 							out = strings.ReplaceAll(out, " "+ph+".", " "+form(ph)+".")
@@ -925,6 +935,7 @@ func init() {
 							out = strings.ReplaceAll(out, " "+ph+",", " "+form(ph)+",")
 							out = strings.ReplaceAll(out, " "+ph+"]", " "+form(ph)+"]")
 							out = strings.ReplaceAll(out, " "+ph+"}", " "+form(ph)+"}")
+							out = strings.ReplaceAll(out, "["+ph+"]", "["+form(ph)+"]")
 						}
 						return out
 					}
